@@ -56,7 +56,7 @@ def option_switch(f, bb):
     return e[1], some_t, others
 
 
-def advancing_blocks(f, body):
+def advancing_blocks(f, body, header=None):
     """blocks of a loop body whose execution guarantees the cursor moved (given the loop continues)"""
     adv = set()
     dom = f.dominators()
@@ -65,6 +65,27 @@ def advancing_blocks(f, body):
         if t['k'] != 'call':
             continue
         c = callee_of(t)
+        if c == 'lex::Lex::next':
+            # a whole token was scanned; the loop may continue only for Whitespace / Comment tokens, which (R1
+            # token-consumed-text) are returned only after at least one character was consumed
+            ok_tok = False
+            for b2 in body:
+                t2 = f.blocks[b2]['term']
+                if t2['k'] != 'switch':
+                    continue
+                e2 = f.expr_of_operand(t2['discr'])
+                if isinstance(e2, tuple) and e2[0] == 'discr' and e2[2] == 'lex::Tok':
+                    vs = None
+                    for st in f.blocks[b2]['stmts']:
+                        if st['k'] == 'assign' and st['rv']['k'] == 'discr':
+                            vs = dict(st['rv']['variants'])
+                    stay = {(vs or {}).get(v, str(v)) for v, tgt in t2['targets'] if tgt in body and _reaches_header(f, tgt, body, header)}
+                    other_stays = t2['otherwise'] in body and _reaches_header(f, t2['otherwise'], body, header)
+                    if stay and stay <= {'Whitespace', 'Comment'} and not other_stays:
+                        ok_tok = True
+            if ok_tok:
+                adv.add(b)
+            continue
         if c == TAKE or c in ITER_NEXT:
             dest = t['dest']['l']
             # (i) result tested: the None side must leave the loop
@@ -94,6 +115,21 @@ def advancing_blocks(f, body):
                         if some_t in dom.get(b, ()) and len(f.pred(some_t)) == 1:
                             adv.add(b)
     return adv
+
+
+def _reaches_header(f, start, body, header):
+    """can `start` get back to the loop header without leaving the loop body?"""
+    seen = set()
+    st = [start]
+    while st:
+        x = st.pop()
+        if x == header:
+            return True
+        if x in seen or x not in body:
+            continue
+        seen.add(x)
+        st.extend(f.succ(x))
+    return False
 
 
 def _is_unreachable(f, b):
@@ -206,7 +242,7 @@ def run(rep, facts, tier):
             by_h.setdefault(h, set()).update(body)
         for h, body in sorted(by_h.items()):
             n_loops += 1
-            adv = advancing_blocks(f, body)
+            adv = advancing_blocks(f, body, h)
             cyc = cycle_without(f, h, body, adv)
             key = 'C16.R1:loop:%s:header@%s' % (fn, _loop_sig(f, h, body))
             rep.add('C16.R1', key, cyc is None,
